@@ -51,6 +51,42 @@ func TestVerifReplay(t *testing.T) {
 	}()
 	f()
 }
+
+// TestVerifTraces replays sampled symbolic paths (one witness file each): the native run must consume exactly the
+// same nd sequence (same tags, same count), fail no assertion and not panic.
+func TestVerifTraces(t *testing.T) {
+	dir := os.Getenv("VERIF_TRACE_DIR")
+	ents, _ := os.ReadDir(dir)
+	for _, e := range ents {
+		func() {
+			path := dir + "/" + e.Name()
+			vResetWitness(path)
+			f := vHarness[vWit.Harness]
+			if f == nil {
+				fmt.Println("VERIF-TRACE", e.Name(), "noharness")
+				return
+			}
+			defer func() {
+				r := recover()
+				switch {
+				case r != nil:
+					if _, ok := r.(vAssumeFailed); ok {
+						fmt.Println("VERIF-TRACE", e.Name(), "assume-failed")
+					} else {
+						fmt.Println("VERIF-TRACE", e.Name(), "panic", r)
+					}
+				case len(vDiverge) > 0 || vPos != len(vWit.ND):
+					fmt.Println("VERIF-TRACE", e.Name(), "diverged", vDiverge, vPos, len(vWit.ND))
+				case len(vFailed) > 0:
+					fmt.Println("VERIF-TRACE", e.Name(), "assert-failed", vFailed)
+				default:
+					fmt.Println("VERIF-TRACE", e.Name(), "ok")
+				}
+			}()
+			f()
+		}()
+	}
+}
 `
 
 func replayNative(ps *PropertySpec, v *Violation, wpath string, results []*HarnessResult) string {
@@ -157,4 +193,87 @@ func replayNativeRun(spec *HarnessSpec, v *Violation, wpath string) string {
 		return "reproduced"
 	}
 	return "replay-error"
+}
+
+// validateTraces runs sampled normal-end paths natively (one go test per package) and returns (validated, mismatches).
+func validateTraces(ps *PropertySpec, results []*HarnessResult, outDir string) (int, []string) {
+	byPkg := map[string][]*HarnessResult{}
+	for _, hr := range results {
+		if len(hr.TraceSamples) > 0 && hr.Spec.Replay == "" {
+			byPkg[hr.Spec.Pkg] = append(byPkg[hr.Spec.Pkg], hr)
+		}
+	}
+	validated := 0
+	var bad []string
+	for pkg, hrs := range byPkg {
+		tdir := filepath.Join(outDir, "traces_"+strings.ReplaceAll(pkg, "/", "_"))
+		os.RemoveAll(tdir)
+		os.MkdirAll(tdir, 0o755)
+		n := 0
+		for _, hr := range hrs {
+			for i, ts := range hr.TraceSamples {
+				writeJSON(filepath.Join(tdir, fmt.Sprintf("%s.%d.json", hr.Spec.Fn, i)), map[string]interface{}{"harness": hr.Spec.Fn, "nd": ts, "params": hr.Params})
+				n++
+			}
+		}
+		ov, err := overlayFor([]string{pkg}, true)
+		if err != nil {
+			bad = append(bad, pkg+": overlay: "+err.Error())
+			continue
+		}
+		repl := map[string]string{}
+		pkgName := ""
+		i := 0
+		for virt, src := range ov {
+			real := filepath.Join(tdir, fmt.Sprintf("ov%d.go.txt", i))
+			i++
+			os.WriteFile(real, src, 0o644)
+			repl[virt] = real
+			if strings.HasSuffix(virt, "zz_verif_api.go") {
+				for _, ln := range strings.Split(string(src), "\n") {
+					if strings.HasPrefix(ln, "package ") {
+						pkgName = strings.TrimSpace(strings.TrimPrefix(ln, "package "))
+					}
+				}
+			}
+		}
+		testReal := filepath.Join(tdir, "replay_test.go.txt")
+		os.WriteFile(testReal, []byte(strings.ReplaceAll(replayTestSrc, "PKGNAME", pkgName)), 0o644)
+		repl[filepath.Join(repoDir(), pkg, "zz_verif_replay_test.go")] = testReal
+		ovPath := filepath.Join(tdir, "overlay.json.txt")
+		b, _ := json.Marshal(map[string]interface{}{"Replace": repl})
+		os.WriteFile(ovPath, b, 0o644)
+		ctx, cancel := context.WithTimeout(context.Background(), 300*time.Second)
+		cmd := exec.CommandContext(ctx, "go", "test", "-tags", "verif", "-vet=off", "-count=1", "-overlay", ovPath, "-run", "^TestVerifTraces$", "-timeout", "240s", "-v", "./"+pkg)
+		cmd.Dir = repoDir()
+		// the trace dir holds only the witness json files
+		wdir := filepath.Join(tdir, "w")
+		os.MkdirAll(wdir, 0o755)
+		ents, _ := os.ReadDir(tdir)
+		for _, e := range ents {
+			if strings.HasSuffix(e.Name(), ".json") {
+				os.Rename(filepath.Join(tdir, e.Name()), filepath.Join(wdir, e.Name()))
+			}
+		}
+		cmd.Env = append(os.Environ(), "GOFLAGS=", "GOPROXY=off", "GOSUMDB=off", "GOTOOLCHAIN=local", "VERIF_TRACE_DIR="+wdir)
+		out, _ := cmd.CombinedOutput()
+		cancel()
+		os.WriteFile(filepath.Join(tdir, "traces.log"), out, 0o644)
+		seen := 0
+		for _, ln := range strings.Split(string(out), "\n") {
+			if strings.HasPrefix(ln, "VERIF-TRACE ") {
+				seen++
+				f := strings.Fields(ln)
+				if len(f) >= 3 && f[2] == "ok" {
+					validated++
+				} else {
+					bad = append(bad, pkg+": "+ln)
+				}
+			}
+		}
+		if seen != n {
+			bad = append(bad, fmt.Sprintf("%s: trace validation ran %d of %d traces (see %s)", pkg, seen, n, filepath.Join(tdir, "traces.log")))
+		}
+	}
+	return validated, bad
 }
